@@ -1114,7 +1114,7 @@ class DynGraph(nx.Graph):
             >>> G.update_node_attr_from([0, 2], Label="B")
         """
         for n in nlist:
-            self._node[n] = data
+            self._node[n] = dict(data)
 
     def temporal_snapshots_ids(self):
         """Return the ordered list of snapshot ids present in the dynamic graph.
